@@ -731,7 +731,7 @@ def gen_short(tier, seed):
     thorough = tier == "thorough"
     for tr, ntips, symbols in (("(a:0.3,b:0.1);", 2, "ATR-"), ("(a:0.3,b:0.1,c:0.6);", 3, "AG-")):
         cols = ["".join(c) for c in itertools.product(symbols, repeat=ntips)]
-        for L in (1, 2, 3):
+        for L in (0, 1, 2, 3):
             alns = list(itertools.product(cols, repeat=L))
             if L == 3 and not thorough:
                 alns = rnd.sample(alns, 400)
@@ -1138,7 +1138,7 @@ BOUNDED = {
     "short_alignments": {
         "gen": gen_short, "contract": contract_short,
         "functions": ["likelihood_tree._indexed", "LikelihoodTreeEdge.get_log_sum_across_sites / get_full_length_likelihoods"],
-        "bound": "every alignment of 1-3 columns over symbols ATR- (2 tips) and AG- (3 tips); length 3 sampled in quick "
+        "bound": "every alignment of 0-3 columns over symbols ATR- (2 tips) and AG- (3 tips); length 3 sampled in quick "
                  "(400) and for 3 tips (4000); HKY85 and GN alternate",
         "rule": "as nucleotide",
     },
